@@ -286,6 +286,7 @@ def run_check(prop, tier, seed=None, workers=None, runs=None, wall=None):
     # regression stage: the minimised replays of every finding that was repaired ("fixed:"
     # lines of known_findings.txt) are re-executed first; a fixed entry suppresses nothing
     regress_hits = []
+    regress_results = []
     regress_files = sorted(f for f in (os.listdir(REGRESS_DIR) if os.path.isdir(REGRESS_DIR)
                                        else []) if f.startswith(prop + '-'))
     _prepare_worker()
@@ -294,6 +295,7 @@ def run_check(prop, tier, seed=None, workers=None, runs=None, wall=None):
         with open(path) as f:
             body = json.load(f)
         res = execute_run(mod, body['run'])
+        regress_results.append(res)
         want = (body['violation']['oracle'], body['violation']['subject'])
         hits = [v for v in res['violations'] if vkey(v) == want
                 and findings.classify(prop, v, entries) is None]
@@ -312,6 +314,9 @@ def run_check(prop, tier, seed=None, workers=None, runs=None, wall=None):
         recheck = list(range(min(3, total)))
 
     agg = {'stats': Counter(), 'faults': Counter(), 'probes': Counter()}
+    for res in regress_results:          # the regression replays are executions of this run too
+        for k in ('stats', 'faults', 'probes'):
+            agg[k].update(res[k])
     shapes = set()
     states = set()
     digests = {}
